@@ -30,8 +30,8 @@ func genOpts(r *mon.Rand, cfg mon.Config, mode gspec.Mode) gspec.GenOpts {
 func TestCheck(t *testing.T) {
 	cfg := mon.Load(ID)
 	rep := mon.NewReporter(cfg, "exploration",
-		"generated acyclic specs in graph-AllPredecessor mode and as Workflows (control-only, data-only and combined dependencies, field mappings, single/multi branches, converging branches, nested graphs); for every spec ALL combinations of branch outcomes are forced when there are <=64 (sampled otherwise); each run (Invoke and Stream) is compared with an independent all-predecessor reference interpreter: result, at-most-once, executed ⊆ triggered, ancestors of END executed, input = merge of the routed data predecessors, body entry after every control predecessor returned; a real dagChannel (hook VerifNewDAGChannel) is driven with runner-feasible report sequences next to a model channel; a sub-workload adds nodes without any predecessor. Non-trivial: the graph has a branch and the outcome vector skips at least one node while another still runs; distinct = distinct (spec, outcome vector) digests.",
-		[]string{"node bodies deterministic", "nodes that are not ancestors of END may or may not have started when the run returns (only ⊆ is required for them)", "shapes the statement does not define are not generated: plain edge plus branch between the same pair, data-only edges from non-ancestors, nodes fed only by data-only inputs"},
+		"generated acyclic specs in graph-AllPredecessor mode and as Workflows (control-only, data-only and combined dependencies, field mappings, single/multi branches, converging branches, nested graphs); for every spec ALL combinations of branch outcomes are forced when there are <=64 (sampled otherwise); each run (Invoke and Stream) is compared with an independent all-predecessor reference interpreter: result, at-most-once, executed ⊆ triggered, ancestors of END executed, input = merge of the routed data predecessors, body entry after every control predecessor returned; a real dagChannel (hook VerifNewDAGChannel) is driven with runner-feasible report sequences next to a model channel; a sub-workload adds nodes without any predecessor; a sub-workload of hand-built specs (edge_branch_test.go) puts a plain edge AND a branch between the same pair of nodes (x with 0-2 further predecessors that finish / are skipped / select it, one or two branches on a, x feeding END or not, nested, all four paradigms) and judges it with a dedicated oracle (a executed => x executed exactly once) next to the reference. Non-trivial: the graph has a branch and the outcome vector skips at least one node while another still runs; distinct = distinct (spec, outcome vector) digests.",
+		[]string{"node bodies deterministic", "nodes that are not ancestors of END may or may not have started when the run returns (only ⊆ is required for them)", "a plain edge plus a branch between the same pair of nodes: the edge routes unconditionally, the branch can only add routes (any-predecessor mode behaves the same; only the hand-built sub-workload generates the shape)", "shapes the statement does not define are not generated: data-only edges from non-ancestors, nodes fed only by data-only inputs"},
 		150)
 	defer func() {
 		if err := rep.Flush(); err != nil {
